@@ -566,6 +566,11 @@ func (e *Env) call(c *CallE) Val {
 		p := x.scalar(e.eval(c.Args[0]))
 		x.useTop()
 		return boolTV(and("(> "+p+" "+e.alloc+")", eq("(top "+p+")", p)))
+	case "toplevel":
+		// the pointer designates a separately allocated object, not a field or element embedded in another one
+		p := x.scalar(e.eval(c.Args[0]))
+		x.useTop()
+		return boolTV(eq("(top "+p+")", p))
 	case "allocated":
 		p := x.scalar(e.eval(c.Args[0]))
 		x.useTop()
@@ -994,25 +999,29 @@ func autoTrigger(body string, names, decl []string) (string, []string, []string,
 	// change of variable for offset indexing
 	for vi, v := range names {
 		offs := map[string]int{}
-		bare := 0
-		var walk func(n *sx, parentPlus bool)
-		walk = func(n *sx, parentPlus bool) {
+		direct := 0
+		var walk func(n *sx)
+		walk = func(n *sx) {
 			if n.kids == nil {
-				if n.atom == v && !parentPlus {
-					bare++
-				}
 				return
 			}
-			if n.head() == "+" && len(n.kids) == 3 && n.kids[2].kids == nil && n.kids[2].atom == v && !n.kids[1].contains(v) {
-				offs[n.kids[1].String()]++
-				walk(n.kids[1], false)
-				return
+			if n.head() == "select" && len(n.kids) == 3 {
+				ix := n.kids[2]
+				if ix.kids == nil && ix.atom == v {
+					direct++
+				}
+				if ix.head() == "+" && len(ix.kids) == 3 && ix.kids[2].kids == nil && ix.kids[2].atom == v && !ix.kids[1].contains(v) {
+					offs[ix.kids[1].String()]++
+				}
 			}
 			for _, k := range n.kids {
-				walk(k, false)
+				walk(k)
 			}
 		}
-		walk(tree, false)
+		walk(tree)
+		if direct > 0 {
+			continue
+		}
 		if len(offs) == 1 {
 			var off string
 			for o := range offs {
